@@ -28,7 +28,7 @@ def ckSync : CK → Bool
   | .leaf l => (specs l).kind.isInlineValue
   | .back _ => false
 
-def cleanupsSync (cs : List (Nat × CK)) : Bool := cs.all (fun c => ckSync specs c.2)
+def cleanupsSync (cs : List (Nat × CK × Nat)) : Bool := cs.all (fun c => ckSync specs c.2.1)
 
 theorem ckSync_ckOf (l : Nat) : ckSync specs (ckOf l) = cleanupSync specs l := by
   unfold ckOf cleanupSync
@@ -51,7 +51,7 @@ structure Exited (s' : St) (rest : List Frame) (o : Outcome) (ran : List Nat)
 @[simp] theorem rootTrace_append (a b : List Out) : rootTrace (a ++ b) = rootTrace a ++ rootTrace b := by
   simp [rootTrace]
 
-theorem exit_sim (o : Outcome) : ∀ (cs : List (Nat × CK)) (s : St) (fr : Frame) (rest : List Frame),
+theorem exit_sim (o : Outcome) : ∀ (cs : List (Nat × CK × Nat)) (s : St) (fr : Frame) (rest : List Frame),
     s.ctl = .exit o → s.frames = fr :: rest → fr.cleanups = cs → cleanupsSync specs cs = true →
     ∃ m, Exited (iter specs m s) rest o (cleanupTrace s.outs ++ cs.map Prod.fst)
       s.srcStopped s.inlineSched s.stopOp (rootTrace s.outs) := by
@@ -64,12 +64,12 @@ theorem exit_sim (o : Outcome) : ∀ (cs : List (Nat × CK)) (s : St) (fr : Fram
       constructor <;> simp [iter, step, hc, hf, exitStep, hcs, emit, exitCtl, cleanupTrace, rootTrace]
   | cons c cs ih =>
     intro s fr rest hc hf hcs hsync
-    obtain ⟨a, ck⟩ := c
+    obtain ⟨a, ck, q⟩ := c
     simp only [cleanupsSync, List.all_cons, Bool.and_eq_true] at hsync
     obtain ⟨hl, hrest⟩ := hsync
     cases ck with
     | sync =>
-      have hstep : step specs s = emit { s with frames := { fr with cleanups := cs, ran := fr.ran ++ [a] } :: rest } (.cleanup fr.id a) := by
+      have hstep : step specs s = emit (emit { s with frames := { fr with cleanups := cs, ran := fr.ran ++ [a] } :: rest } (.cleanup fr.id a)) (.cleanupSched q) := by
         simp [step, hc, hf, exitStep, hcs]
       obtain ⟨m, hE⟩ := ih (step specs s) { fr with cleanups := cs, ran := fr.ran ++ [a] } rest
         (by rw [hstep]; simp [emit, hc]) (by rw [hstep]; simp [emit]) rfl hrest
@@ -86,7 +86,7 @@ theorem exit_sim (o : Outcome) : ∀ (cs : List (Nat × CK)) (s : St) (fr : Fram
         | error e => simp [hk, LeafKind.isInlineValue] at hl
         | done => simp [hk, LeafKind.isInlineValue] at hl
         | value v =>
-          have hstep : step specs s = emit (emit { s with frames := { fr with cleanups := cs, ran := fr.ran ++ [a] } :: rest } (.cleanup fr.id a)) (.leafStart l false) := by
+          have hstep : step specs s = emit (emit (emit { s with frames := { fr with cleanups := cs, ran := fr.ran ++ [a] } :: rest } (.cleanup fr.id a)) (.cleanupSched q)) (.leafStart l false) := by
             simp [step, hc, hf, exitStep, hcs, hk]
           obtain ⟨m, hE⟩ := ih (step specs s) { fr with cleanups := cs, ran := fr.ran ++ [a] } rest
             (by rw [hstep]; simp [emit, hc]) (by rw [hstep]; simp [emit]) rfl hrest
@@ -229,12 +229,12 @@ theorem exec_sim : ∀ (n : Nat) (k : List Stmt), progSize k ≤ n → ExecSim s
           rw [hstep] at hE
           simpa [iter, hstep, evalFrame_cons, evalStmt, hst] using hE
       | atExit a l =>
-        have hstep : step specs s = emit { s with frames := { fr with kont := k, cleanups := (a, ckOf l) :: fr.cleanups, regd := a :: fr.regd } :: rest } (.reg fr.id a) := by
+        have hstep : step specs s = emit { s with frames := { fr with kont := k, cleanups := (a, ckOf l, fr.sched) :: fr.cleanups, regd := a :: fr.regd } :: rest } (.reg fr.id a) := by
           simp [step, hc, hf, execStep, hkk]
-        have hsync' : cleanupsSync specs ((a, ckOf l) :: fr.cleanups) = true := by
+        have hsync' : cleanupsSync specs ((a, ckOf l, fr.sched) :: fr.cleanups) = true := by
           simp only [cleanupsSync, List.all_cons, Bool.and_eq_true]
           exact ⟨by rw [ckSync_ckOf]; simpa [Stmt.inline] using hinx, hsync⟩
-        obtain ⟨m, hE⟩ := IHk (step specs s) { fr with kont := k, cleanups := (a, ckOf l) :: fr.cleanups, regd := a :: fr.regd } rest
+        obtain ⟨m, hE⟩ := IHk (step specs s) { fr with kont := k, cleanups := (a, ckOf l, fr.sched) :: fr.cleanups, regd := a :: fr.regd } rest
           (by rw [hstep]; exact hc) (by rw [hstep]; rfl) rfl (by rw [hstep]; exact hink) hsync'
         refine ⟨m + 1, ?_⟩
         rw [hstep] at hE
